@@ -567,12 +567,12 @@ def stage_seq(run, cfg, sq):
     diffs = kept
     if not diffs:
         return
-    decisive0 = decisive
-    dec = [d for d in diffs if decisive0(d)]
+    decisive_base = decisive
+    dec = [d for d in diffs if decisive_base(d)]
     reported = set()
     for d in (dec[:40] if dec else diffs[:1]):
         hdr, cops = extract_case(ops, d["case"], d["line"])
-        decisive = lambda d, hdr=hdr: decisive0(d) and known_diff(d, hdr) is None
+        decisive = lambda d, hdr=hdr: decisive_base(d) and known_diff(d, hdr) is None
         if sq.get("stateless") and cops:
             cops = cops[-1:]
         is_dec = decisive(d)
